@@ -30,6 +30,7 @@ type elemCase struct {
 	ExpectErr    bool     `json:"expect_err,omitempty"`   // every call has to follow an unresolvable reference: each must report an error
 	Differential bool     `json:"differential,omitempty"` // compare with the same call made without a cache (no reference model: ids)
 	Transient    []string `json:"transient,omitempty"`    // documents the loader refuses during the first call only (then the cache is reused)
+	Truncated    bool     `json:"truncated,omitempty"`    // ... by answering with half of the document instead of an error
 }
 
 // rootedBase: the location against which the refs of the element (and of the result) are read.
@@ -119,6 +120,7 @@ func elemCheck(c *Ctx, cs *elemCase, which string) string {
 		if len(cs.Transient) > 0 && i == 0 {
 			// a passing failure: whatever this call answers, nothing of it may stay in the cache
 			ecs.FailLoads = cs.Transient
+			ecs.Garble = cs.Truncated
 			r := doCall(&ecs, cl, cache, 200000)
 			if r.Panic != "" || r.Budget {
 				report("crash-or-runaway", cl.Elem, r.Panic, cl)
@@ -617,9 +619,11 @@ func c18Run(c *Ctx) {
 						continue
 					}
 					cl := call{Fn: "ExpandSchemaWithBasePath", Elem: e}
-					run(&elemCase{expCase: expCase{built: *b, Spec: g}, Calls: []call{cl, cl}, CacheKind: kind, Transient: []string{b.Root}})
-					if len(ext) > 0 {
-						run(&elemCase{expCase: expCase{built: *b, Spec: g}, Calls: []call{cl, cl}, CacheKind: kind, Transient: ext})
+					for _, trunc := range []bool{false, true} {
+						run(&elemCase{expCase: expCase{built: *b, Spec: g}, Calls: []call{cl, cl}, CacheKind: kind, Transient: []string{b.Root}, Truncated: trunc})
+						if len(ext) > 0 {
+							run(&elemCase{expCase: expCase{built: *b, Spec: g}, Calls: []call{cl, cl}, CacheKind: kind, Transient: ext, Truncated: trunc})
+						}
 					}
 				}
 			}
